@@ -307,6 +307,17 @@ impl Exec {
                 op_index,
             ));
         }
+        // CANON: the writer must emit map-like collections in a canonical (ascending) order, otherwise
+        // blobs of equal objects differ from process to process
+        let gals: Vec<i64> = p.fields.iter().filter(|f| f.role == Role::Gal).map(|f| f.val as i64).collect();
+        if gals.windows(2).any(|w| w[0] >= w[1]) {
+            return Err(viol(
+                "CANON",
+                "galois_keys_not_ascending".into(),
+                format!("write_to emitted the Galois-element map in the order {gals:?}"),
+                op_index,
+            ));
+        }
         for u in &p.units {
             let Some(l) = &u.leaf else { continue };
             let cap = st.info.caps.get(&u.key).copied().unwrap_or(0);
